@@ -225,6 +225,11 @@ func (o jsonObject) patch(
 	if len(pathAhead) == 0 {
 		newValue := singleValue(newValues)
 		if strategy == mergePatchStrategy {
+			if e, ok := newValue.(jsonObject); ok && len(e) == 0 {
+				// Merging an empty object into an object changes
+				// nothing (RFC 7386: the patch has no members).
+				return o, nil
+			}
 			return newValue, nil
 		}
 		oldValue := singleValue(oldValues)
